@@ -61,6 +61,63 @@ def walk_classes(rel, seen=None):
     return out
 
 
+def join_nodes(rel):
+    out, stack = [], [rel]
+    while stack:
+        r = stack.pop()
+        if isinstance(r, dr.BinaryOperationRelation) and isinstance(r.operation, dr.Join):
+            out.append(r)
+        for attr in ("target", "lhs", "rhs", "skip_to"):
+            if hasattr(r, attr):
+                stack.append(getattr(r, attr))
+    return out
+
+
+def explicit_common_columns(rng, n):
+    """Join operations constructed with explicit minimum / maximum common columns (unequal, so that the operation has to
+    resolve them against its operands) and applied through Join.apply and Join.partial(...).apply(...), directly and
+    downstream of a transfer: every join node of the result has its common columns resolved, and they are columns of both
+    operands."""
+    bad, done = [], 0
+    while done < n:
+        p, cols = mp.gen_mprog(rng, rng.choice([0, 1, 2, 3]), p_opts=0.2, p_xfer=0.4)
+        w, rel, res = mp.run_build(p)
+        keys = sorted(c for c in (rel.columns if rel is not None else ()) if c.is_key)
+        if rel is None or not keys:
+            continue
+        home = w.reg.engine(rel.engine)
+        feng = rng.choice([home, home, mp.ENGINES[2], rng.choice(mp.ENGINES)])
+        shared = [k for k in keys if rng.random() < 0.7] or keys[:1]
+        fcols = sorted(set(shared) | {enc.K(9)})
+        fixed = mp.build_impl(("leaf", 95, feng, fcols, [dict.fromkeys(fcols, 1)], (0, None)), w)
+        mn = frozenset(k for k in shared if rng.random() < 0.4)
+        mx = rng.choice([None, frozenset(mn | {k for k in keys if rng.random() < 0.5} | ({enc.K(8)} if rng.random() < 0.4 else set()))])
+        if mx == mn:
+            continue
+        join = dr.Join(min_columns=mn, max_columns=mx)
+        for what, call in (("Join.partial(fixed).apply(target)", lambda: join.partial(fixed).apply(rel, backtrack=True, transfer=rng.random() < 0.3)),
+                           ("Join.partial(target, is_lhs=True).apply(fixed)", lambda: join.partial(rel, is_lhs=True).apply(fixed)),
+                           ("Join.apply(target, fixed)", lambda: join.apply(rel, fixed))):
+            try:
+                out = call()
+            except dr.RelationalAlgebraError:
+                continue
+            except Exception as e:  # noqa: BLE001
+                bad.append({"program": jsonable(p), "call": what, "problem": f"raised {type(e).__name__}: {e}"})
+                continue
+            for node in join_nodes(out):
+                op = node.operation
+                if op.min_columns != op.max_columns or not op.min_columns <= (node.lhs.columns & node.rhs.columns):
+                    bad.append({"program": jsonable(p), "call": what, "min_columns": sorted(map(str, mn)),
+                                "max_columns": None if mx is None else sorted(map(str, mx)), "fixed_engine": list(feng),
+                                "problem": f"join node with min_columns={sorted(map(str, op.min_columns))} max_columns="
+                                           f"{None if op.max_columns is None else sorted(map(str, op.max_columns))} over operands "
+                                           f"sharing {sorted(map(str, node.lhs.columns & node.rhs.columns))}"})
+                    break
+        done += 1
+    return done, bad
+
+
 def signature(case):
     t = case["impl_tree"]
     if t[0] == "ok" and sg.sort_needs_dropped_column(t[1]):
@@ -107,6 +164,8 @@ def make_cases(rng, tier):
         cases.append({"json": {"program": jsonable(p), "impl": jsonable(res)}, "coq": f"STCase {mp.cprog(p)} {t}",
                       "nontrivial": res[0] == "ok" and json.dumps(jsonable(res[1])).count("xfer") + json.dumps(jsonable(res[1])).count("select") > 0,
                       "key": mp.cprog(p), "impl_tree": res})
+    n_ecc, ecc_bad = explicit_common_columns(rng, n // 6)
+    extra_bad += ecc_bad
     return cases, extra_bad
 
 
